@@ -37,7 +37,7 @@ var dawnFuncsC11 = []want{
 	{"internal/mvs/reqs.go", []string{"Reqs.Upgrade", "Reqs.Previous"}},
 	{"internal/mvs/get.go", []string{"transformReqs", "Get", "get", "UpgradeAll", "Tidy"}},
 	{"internal/mvs/query.go", []string{"parseVersionQuery", "querier.resolveVersionQuery", "querier.resolveLatestQuery",
-		"querier.resolveUpgradeQuery", "querier.resolvePatchQuery", "querier.resolveSemverRangeQuery", "parseSemverRangeQuery",
+		"querier.resolveUpgradeQuery", "querier.resolvePatchQuery", "querier.resolveSemverRangeQuery", "querier.resolveRefQuery", "parseSemverRangeQuery",
 		"parseSemverPrefix", "parseSemverGTE", "parseSemverLTE", "majorVersionMatch"}},
 	{"internal/mvs/resolver.go", []string{"Resolver.listVersions", "Resolver.findProjectRepository", "taggedVersions"}},
 	{"cmd/dawn/get.go", []string{"newGetCommand"}},
